@@ -232,7 +232,7 @@ func c14Flow(x *Ctx) {
 	}
 	var s *ship1
 	curPhase, armPhase, probed := 0, -1, false
-	armEpoch := int64(-1)
+	armEpoch, armTask := int64(-1), ""
 	hook := func(name string, args []any) {
 		if s == nil || len(args) == 0 || args[0] != any(s.conn) {
 			return
@@ -244,17 +244,18 @@ func c14Flow(x *Ctx) {
 					curPhase = ph
 					// a handler that arms the timer and then enters the next phase (access
 					// methods) has armed that phase's timer
-					if armEpoch == s.epoch.Load() && ph > armPhase {
+					if t, e := s.epochOf(); t == armTask && e == armEpoch && ph > armPhase {
 						armPhase = ph
 					}
 				}
 			}
 		case "ship.ShipConnection.setHandshakeTimer":
 			probed = true
-			armPhase, armEpoch = curPhase, s.epoch.Load()
+			armPhase = curPhase
+			armTask, armEpoch = s.epochOf()
 		case "ship.ShipConnection.handleState":
 			if to, ok := args[1].(bool); ok && to {
-				s.epoch.Add(1)
+				s.bumpEpoch()
 				x.Ev("t-timeout", "U", fmt.Sprintf("armed-in-phase-%d", armPhase), curPhase)
 				if armPhase >= 0 && armPhase < curPhase {
 					x.Violate("timeout-from-earlier-phase", fmt.Sprintf("phase%d>%d", armPhase, curPhase), fmt.Sprintf("%s role: a timeout was delivered in phase %d by a timer armed in phase %d (0 init, 1 hello, 2 protocol, 3 pin, 4 access); states %v", s.role, curPhase, armPhase, stateSeq(x, "U")))
